@@ -31,3 +31,12 @@ Definition stream_ok (c : bytes * list bytes * bytes) : bool :=
   let '(l, t) := split_stream stream in
   list_eqb zlist_eqb l bodies && zlist_eqb t tail.
 Definition check_stream := mismatches stream_ok.
+
+(* ---- contexts: recorded histories of one real api.BuildContext ---- *)
+From V Require Import C20.CtxLTS C20.CtxSpec C20.PluginSpec.
+Definition check_hist := mismatches history_ok.
+
+(* ---- plugin callback trace of one real build: (nS, nE, trace) ---- *)
+Definition trace_ok (c : nat * nat * list pevent) : bool :=
+  let '(nS, nE, tr) := c in build_trace_ok nS nE tr.
+Definition check_trace := mismatches trace_ok.
